@@ -76,6 +76,14 @@ Theorem C13_exec_anonymous_discarded : forall t c s x, mz_ep s = None -> mz_exec
 Proof. exact mz_exec_anonymous. Qed.
 Print Assumptions C13_exec_anonymous_discarded.
 
+(* a discarded ExecuteCommand leaves nothing behind: nothing applied, no copy and no reply handed to any zone *)
+Theorem C13_exec_discard_nothing : forall t c s m x e ts row,
+  mz_exec_route t c s x = MzXDiscard ->
+  let o := mz_exec_handle t c s m x e ts row in
+  mz_xapp o = false /\ mz_xc o = [] /\ mz_xd o = [].
+Proof. exact mz_exec_discard_nothing. Qed.
+Print Assumptions C13_exec_discard_nothing.
+
 (* what the code allows beyond a literal reading of the statement: routing does not look at accept_commands - a node that
    does not accept commands itself still passes them down to its children.  The flag is consulted where the command is
    executed: *)
